@@ -41,8 +41,8 @@ Next == x' = x
 
     rnd = random.Random(seed() * 1019 + 19)
     jobs = []
-    adversarial = ["noise", "extremes", "impulse", "ramp", "stereo", "wasted", "small"]
-    n = 260 if t == "quick" else 3000
+    adversarial = ["noise", "extremes", "impulse", "ramp", "stereo", "wasted", "small", "fade", "fade64", "burst", "chanmix", "blockmix"]
+    n = 260 if t == "quick" else 40000
     for i in range(n):
         ch = rnd.choice([1, 2, 2, 3, 8])
         bps = rnd.choice([1, 4, 8, 12, 16, 20, 24, 31, 32])
